@@ -28,7 +28,7 @@ ASSUMPTIONS = ["observable statistics are compared with System.statistics evalua
 @st.composite
 def runs(draw, tier):
     t = draw(st.sampled_from(["positive", "complex", "density"]))
-    c = {"type": t, "se": draw(st.integers(0, 3)), "E": draw(st.integers(0, 8)), "seed": draw(st.integers(0, 2 ** 31 - 1)),
+    c = {"type": t, "se": draw(st.integers(0, 3)), "E": draw(st.integers(0, 8)) if draw(st.integers(0, 7)) else draw(st.integers(9, 14)), "seed": draw(st.integers(0, 2 ** 31 - 1)),
          "stop_at": draw(st.one_of(st.none(), st.integers(0, 8))),
          "metric_periods": draw(st.lists(st.integers(1, 4), min_size=0, max_size=2)),
          "obs_period": draw(st.one_of(st.none(), st.integers(1, 4))),
@@ -163,6 +163,8 @@ def check(c):
                         require(isinstance(arr, np.ndarray) and list(arr) == want, f"metric:array:{acc}", f"MetricEvaluator.{name} = {list(arr)} != values at the scheduled epochs {want}")
                     for i in range(-len(S), len(S)):
                         require(me.get_value(name, i) == want[i], "metric:get_value", f"get_value({name!r}, {i}) = {me.get_value(name, i)} != {want[i]}")
+                        require(me.get_value(name, np.int64(i)) == want[i] and me.get_value(name, index=i) == want[i], "metric:get_value-argform",
+                                f"get_value({name!r}, index) depends on how the index is passed (numpy integer / keyword): index {i}")
                     if S:
                         require(me.get_value(name) == want[-1], "metric:get_value-default", "get_value without index is not the most recent value")
                 require(me.last == ({k: record["metrics"][S[-1]][k] for k in metrics} if S else {}), "metric:last", f"last = {me.last}")
@@ -191,6 +193,7 @@ def check(c):
                                     f"{o.name}.{al} = {list(arr)} != recorded {[w[stat] for w in want]}")
                 for i in range(-len(S), len(S)):
                     require(oe.get_value(o.name, i) == want[i], "observable:get_value", f"get_value({o.name!r}, {i}) != record")
+                    require(oe.get_value(o.name, np.int64(i)) == want[i], "observable:get_value-argform", f"get_value({o.name!r}, np.int64({i})) != record")
                 if S:
                     require(oe.get_value(o.name) == want[-1], "observable:get_value-default", "get_value without index is not the most recent")
             require(oe.last == (record["stats"][S[-1]] if S else {}), "observable:last", f"last = {oe.last}")
